@@ -1165,7 +1165,8 @@ def run_wiring():
 
 
 GLUE_MODULE = "CvssVerif.Props.SrcGlue"
-GLUE_THEOREMS = ["getTempleteString_is_model", "executeTemplate_is_model", "exportWithString_is_model", "exportWith_is_model"]
+GLUE_THEOREMS = ["getTempleteString_is_model", "executeTemplate_is_model", "exportWithString_is_model", "exportWith_is_model",
+                 "c19_about_source", "reader_is_string_source"]
 
 
 def run_glue():
@@ -1634,7 +1635,7 @@ class ExportProp(SimpleProp):
     theorems = ["CvssVerif.Props.C19." + t for t in ("bad_reader", "reader_is_string", "nil_report", "engine_result", "clean_failure")]
     rule = ("templates built from a grammar of atoms (field references of all three levels incl. shadowed fields through embedded reports, "
             "pipelines, if/with/range, unknown fields and functions, unbalanced actions, self-recursive templates) and byte-level mutations of "
-            "them, x reports of all levels and two languages, x {string, reader, chunked reader, failing reader, nil reader, nil report}; the "
+            "them, x reports of all levels and two languages, x {string, reader, chunked reader, partly consumed readers of four types, failing reader, nil reader, nil report}; the "
             "library's result against text/template called directly on the same report; 'held': the returned reader is read only after "
             "four further exports (two succeeding, two failing) on the same report; distinct by op")
     assumptions = ["PARTIAL: text/template itself is not modelled; it is the oracle the harness calls directly",
@@ -1650,7 +1651,9 @@ class ExportProp(SimpleProp):
         ops = []
         modes = ["string", "reader", "chunked", "nilreader", "nilreport", "fail:0", "fail:3", "held", "heldreader",
                  # a nil report through every path (the nil guard sits in ExportWithString only; ExportWith reaches it after reading)
-                 "nilreport+reader", "nilreport+chunked", "nilreport+string"]
+                 "nilreport+reader", "nilreport+chunked", "nilreport+string",
+                 # readers whose first bytes the caller has consumed (strings / bytes / section / bufio readers)
+                 "pre:s", "pre:b", "pre:x", "pre:u", "nilreport+pre:s"]
         seen_t = []
         for i in range(n):
             k = 1 + rng.below(4)
